@@ -34,10 +34,23 @@ type behav struct {
 	sweep    bool   // not an op option: the responder serves a geometry sweep (hundreds of requests within seconds)
 	extra    string // more connected peers, one letter each (multipeer.go)
 	mainFail bool   // `main=e`: the announcing peer answers getLastBlock with an error
+	// failure geometry (failgeo.go)
+	failAt  int // >= 0: getBlocksFromId for a start block of that height or above is answered with an error
+	muteAt  int // >= 0: ... is never answered (the requester's request times out)
+	preTemp int // > 0: the requester's temp block table holds stale copies of its top blocks before the synchronisation
 }
 
 func parseBehav(w []string) behav {
-	b := behav{stop: -1, badStatic: -1, badExec: -1, target: -1}
+	b := behav{stop: -1, badStatic: -1, badExec: -1, target: -1, failAt: -1, muteAt: -1}
+	if v, ok := kvInt(w, "fail"); ok {
+		b.failAt = v
+	}
+	if v, ok := kvInt(w, "mute"); ok {
+		b.muteAt = v
+	}
+	if v, ok := kvInt(w, "pretemp"); ok {
+		b.preTemp = v
+	}
 	if v, ok := kvInt(w, "cap"); ok {
 		b.cap = v
 	}
@@ -70,7 +83,22 @@ func parseBehav(w []string) behav {
 }
 
 func (b behav) honest() bool {
-	return b.cap == 0 && b.stop < 0 && b.badStatic < 0 && b.badExec < 0 && b.common == ""
+	return b.cap == 0 && b.stop < 0 && b.badStatic < 0 && b.badExec < 0 && b.common == "" && b.failAt < 0 && b.muteAt < 0
+}
+
+// downloadFails: the download of the blocks above the common block (height `common`) up to height
+// `target` meets the failure the behaviour describes (error reply, silence, missing or statically invalid block).
+func downloadFails(b behav, common, target int) bool {
+	step := b.cap
+	if step <= 0 {
+		step = lsync.VerifC19MaxBlocksPerResponse
+	}
+	for s := common; s < target; s += step {
+		if (b.failAt >= 0 && s >= b.failAt) || (b.muteAt >= 0 && s >= b.muteAt) {
+			return true
+		}
+	}
+	return (b.stop >= 0 && b.stop < target) || (b.badStatic > common && b.badStatic <= target)
 }
 
 func (b behav) kind() string {
@@ -81,6 +109,10 @@ func (b behav) kind() string {
 		return "badexec"
 	case b.common != "":
 		return "liecommon"
+	case b.failAt >= 0:
+		return "peererror"
+	case b.muteAt >= 0:
+		return "timeout"
 	case b.stop >= 0:
 		return "truncated"
 	case b.cap > 0:
@@ -123,7 +155,7 @@ func attackerChain(pBlocks []*blockchain.Block, bad int, static bool) ([]*blockc
 // newResponder starts a p2p connection on loopback that answers the three sync endpoints. An
 // honest responder runs the REAL handlers of a Syncer over the responder node's chain; the other
 // behaviours are served by the harness from an explicit block list.
-func newResponder(c *chains, b behav, served []*blockchain.Block, armed *atomic.Bool) (*p2p.Connection, error) {
+func newResponder(c *chains, b behav, served []*blockchain.Block, armed *atomic.Bool, quit chan struct{}) (*p2p.Connection, error) {
 	conn := p2p.NewConnection(node.NopLogger(), &p2p.Config{ChainID: c.p.Cfg.ChainID, Addresses: []string{"/ip4/127.0.0.1/tcp/0"}})
 	syncer := lsync.NewSyncer(c.p.Chain, c.p.BlockSlot(), conn, node.NopLogger(), nil, nil)
 	last := syncer.HandleRPCEndpointGetLastBlock()
@@ -163,6 +195,18 @@ func newResponder(c *chains, b behav, served []*blockchain.Block, armed *atomic.
 			}
 			if idx < 0 {
 				w.Error(errors.New("unknown block"))
+				return
+			}
+			if b.failAt >= 0 && idx >= b.failAt && armed.Load() {
+				w.Error(errors.New("not available"))
+				return
+			}
+			if b.muteAt >= 0 && idx >= b.muteAt && armed.Load() {
+				// no answer before the requester has given up (request time-out incl. the retries of pkg/p2p)
+				select {
+				case <-quit:
+				case <-time.After(muteFor):
+				}
 				return
 			}
 			to := idx + lsync.VerifC19MaxBlocksPerResponse
@@ -214,6 +258,13 @@ func newResponder(c *chains, b behav, served []*blockchain.Block, armed *atomic.
 }
 
 const syncWatchdog = 25 * time.Second
+
+// `mute=` scenarios: the requester's message protocol waits muteTimeout for a response (3 s by default) and
+// retries three times; the responder stays silent for muteFor.
+const (
+	muteTimeout = 150 * time.Millisecond
+	muteFor     = 1500 * time.Millisecond
+)
 
 func chainIDs(n *node.Node) [][]byte {
 	res := [][]byte{}
@@ -304,6 +355,15 @@ func runSyncOnce(c *chains, w []string) (out string, fails []corr.Fail) {
 	q, resp := pr.q, pr.resp
 	q.AllowSync = true
 	q.PeerID = resp.ID()
+	if b.muteAt >= 0 {
+		q.Conn.VerifC19SetTimeout(muteTimeout)
+	}
+	if b.preTemp > 0 {
+		// pseudo-property C19TEMP (failgeo.go): stale entries in the temp block table
+		if err := staleTempBlocks(q, b.preTemp); err != nil {
+			return "setup-failed", []corr.Fail{fail("c19-setup", "stale temp blocks: %v", err)}
+		}
+	}
 
 	// the context Executer.createSyncContext would build
 	prmBFT, err := q.BFTParams(q.Height() + 1)
@@ -461,6 +521,13 @@ func runSyncOnce(c *chains, w []string) (out string, fails []corr.Fail) {
 		pIDs = append(pIDs, blk.Header.ID)
 	}
 	n := c.prm.N
+	// an honest responder (the real handlers) never bans the honest requester. (Known exception, see
+	// commonSearch in geometry.go: a block synchroniser whose search fails below the finalized block of a
+	// young chain sends a request without ids.)
+	if b.honest() && len(resp.VerifC19BannedIPs()) > 0 && !(omode == "block" && c.prm.F < int(finBefore) && searchWraps(c.prm.Q, int(finBefore), n)) {
+		fails = append(fails, fail("c19-honest-request-banned", "%s sync of an honest requester (tip %d, finalized %d, %d validators) with an honest peer (tip %d, fork after %d): the peer's handlers banned the requester",
+			omode, c.prm.Q, finBefore, n, c.prm.P, c.prm.F))
+	}
 	switch {
 	case b.honest() || (b.kind() == "smallsegments"):
 		// honest peer with a better valid chain: the requester must end on it when the fork point is
@@ -530,9 +597,28 @@ func runSyncOnce(c *chains, w []string) (out string, fails []corr.Fail) {
 			fails = append(fails, fail("c19-fast-sync-not-restored", "fast sync failed (%s) and left height %d tip %s; the original tip was height %d", b.kind(), tip.Height, c.token(tip.ID, extraTok), len(before)-1))
 		}
 		if syncErr != nil && same(after, before) && q.Finalized() == finBefore {
-			if d := node.DiffDumps(dumpBefore, q.DumpDB()); len(d) > 0 && len(temp) == 0 {
+			d := node.DiffDumps(dumpBefore, q.DumpDB())
+			if b.preTemp > 0 {
+				// (C19TEMP: the stale entries of the temp table may be gone)
+				kept := d[:0:0]
+				for _, l := range d {
+					if !strings.HasPrefix(l, "- temp ") {
+						kept = append(kept, l)
+					}
+				}
+				d = kept
+			}
+			if len(d) > 0 && len(temp) == 0 {
 				fails = append(fails, fail("c19-restore-db-differs", "fast sync failed (%s), chain restored but the database differs: %v", b.kind(), d))
 			}
+			if len(temp) != 0 && b.preTemp == 0 {
+				fails = append(fails, fail("c19-temp-blocks-left", "fast sync failed (%s), chain restored but %d temp blocks are left", b.kind(), len(temp)))
+			}
+		}
+		// a failure before anything was applied (download error, time-out, statically invalid block) leaves
+		// the chain untouched and is reported
+		if downloadFails(b, c.prm.F, targetH) && (!same(after, before) || syncErr == nil) {
+			fails = append(fails, fail("c19-fast-sync-not-restored", "fast sync from a peer failing during the download (%s) ended with err=%v at height %d tip %s; the original tip was height %d", b.kind(), syncErr, tip.Height, c.token(tip.ID, extraTok), len(before)-1))
 		}
 		// (a received block that is itself malformed is rejected by Syncer.Sync before any request is made)
 		announcedBad := b.badStatic == len(c.pBlocks)-1 && b.force == ""
@@ -549,6 +635,15 @@ func runSyncOnce(c *chains, w []string) (out string, fails []corr.Fail) {
 		if t, ok := extraTok[string(id)]; ok {
 			fails = append(fails, fail("c19-invalid-block-applied", "tampered block %s is on the requester chain", t))
 			break
+		}
+	}
+	if b.preTemp > 0 {
+		// C19TEMP: the same clauses with stale temp blocks, under signatures of their own
+		for i := range fails {
+			if strings.HasPrefix(fails[i].Sig, "c19-") && fails[i].Sig != "c19-setup" {
+				fails[i].Sig = "c19-stale-temp-" + strings.TrimPrefix(fails[i].Sig, "c19-")
+				fails[i].Detail = fmt.Sprintf("temp block table holding %d stale blocks before the synchronisation: %s", b.preTemp, fails[i].Detail)
+			}
 		}
 	}
 	return out, fails
